@@ -14,7 +14,7 @@
 extern "C" { int g_pos, g_len, g_type[12]; char g_tok[12][4]; int g_N; }
 int tokens_get(AsmContext *asm_context, char *token, int len)
 {
-  if (g_pos >= g_len) { token[0] = '\n'; token[1] = 0; return TOKEN_EOL; }
+  if (g_pos >= g_len) { token[0] = 0; return TOKEN_EOF; }      /* the script ends with an explicit end-of-line token */
   token[0] = g_tok[g_pos][0]; token[1] = g_tok[g_pos][1]; token[2] = g_tok[g_pos][2]; token[3] = 0;
   return g_type[g_pos++];
 }
@@ -43,7 +43,7 @@ extern "C" void h_riscv_ops()
   int rd = nondet_int(), rs1 = nondet_int(); g_N = nondet_int();
   ASSUME(rd >= 0 && rd <= 31 && rs1 >= 0 && rs1 <= 31);
   g_pos = 0; g_len = 0; g_errors = 0;
-  reg(rd); tk(TOKEN_SYMBOL, ',', 0, 0); tk(TOKEN_NUMBER, '1', 0, 0); tk(TOKEN_SYMBOL, '(', 0, 0); reg(rs1); tk(TOKEN_SYMBOL, ')', 0, 0);
+  reg(rd); tk(TOKEN_SYMBOL, ',', 0, 0); tk(TOKEN_NUMBER, '1', 0, 0); tk(TOKEN_SYMBOL, '(', 0, 0); reg(rs1); tk(TOKEN_SYMBOL, ')', 0, 0); tk(TOKEN_EOL, '\n', 0, 0);
   struct _operand operands[MAX_OPERANDS]; struct _modifiers modifiers; memset(&modifiers, 0, sizeof(modifiers));
   char instr[TOKENLEN] = "lw"; char instr_case[TOKENLEN] = "lw";
   int n = get_operands(&ctx, operands, instr, instr_case, &modifiers);
